@@ -47,10 +47,11 @@ theorem filterLoop_spec (cfg : Cfg) (hfix : cfg.fixRemoveDepth = true) (P : HRan
       e'.IdsOk ∧ e'.Good ∧ (∀ q ∈ e'.ranges, P q) ∧ e'.its = [(0, it)]
   | 0, _, _, _, _, _, _, _, hlt => by omega
   | fuel + 1, e, kept, i, k, hinv, hhosts, hm, hlt => by
-    rcases itNext_spec cfg e hinv.ids hinv.good.1 (fun q hq => hPF q (hinv.full q hq)) i k hinv.coh hinv.bound with
-      ⟨hrem, it', hnx⟩ | ⟨x, xs, i', k', r', hrem, hnx, hrem', hr', hk1, hk', hx⟩
+    rcases itNext_spec cfg e hinv.ids hinv.good.1 (fun q hq => hPF q (hinv.full q hq)) i k hinv.coh with
+      ⟨hrem, i0, k0, _, hnx⟩ | ⟨x, xs, i', k', r', hrem, hnx, hrem', hr', hk1, hk', hx⟩
     · -- the end of the list
-      refine ⟨{ e with its := [(0, it')] }, it', ?_, ?_, hinv.ids, hinv.good, hinv.full, rfl⟩
+      refine ⟨{ e with its := [(0, ⟨(i0 : Int), (k0 : Int) - 1, e.hrAt (i0 : Int)⟩)] }, _, ?_, ?_, hinv.ids, hinv.good,
+        hinv.full, rfl⟩
       · unfold filterLoop; rw [hnx]
       · rw [hrem] at hhosts ⊢
         exact hhosts
